@@ -20,13 +20,31 @@ from qiskit_addon_cutting.cutting_experiments import (
 )
 from qiskit_addon_cutting.utils.transpiler_passes import RemoveFinalReset, ConsolidateResets
 
-from common import CaseWriter, Raw, coq
-from circ import CircCtx, coq_instr
+import qiskit_addon_cutting.cutting_experiments as _ce
+from qiskit_addon_cutting import cut_wires, expand_observables, partition_problem, generate_cutting_experiments
+from qiskit_addon_cutting.instructions import CutWire
+from qiskit_addon_cutting.utils.observable_grouping import ObservableCollection
+from qiskit.circuit import Instruction, Reset
+from qiskit.quantum_info import PauliList
+
+from common import CaseWriter, Raw, coq, call_canon
+from circ import CircCtx, coq_instr, circuit_registers
 
 IMPORTS = "From CKT Require Import Common.Base Common.Circ Model.ResetPasses Corr.C12Corr."
 
 PASSES = ["consolidate", "zero", "final", "pipeline", "dag_rfr", "dag_rfr_fix", "dag_consolidate"]
+# further call forms of the three list passes (random / exotic streams only):
+#   *_copy  = f(circuit, inplace=False) (the returned circuit);  *_twice = f applied twice to the same object
+EXTRA = ["consolidate_copy", "zero_copy", "final_copy", "consolidate_twice", "zero_twice", "final_twice"]
 CHECKER = {p: "chk_" + p for p in PASSES}
+CHECKER.update({b + "_copy": "chk_" + b for b in ("consolidate", "zero", "final")})
+CHECKER.update({b + "_twice": "chk_twice_" + b for b in ("consolidate", "zero", "final")})
+
+
+def base_pass(name):
+    return name.rsplit("_", 1)[0] if name.endswith(("_copy", "_twice")) else name
+
+
 # passes for which the property lets the qubits with a dropped TRAILING reset differ
 FINAL_TYPE = {"final", "pipeline", "dag_rfr", "dag_rfr_fix"}
 LIST_PASSES = {"consolidate", "zero", "final", "pipeline"}
@@ -48,6 +66,14 @@ ALPHABET = [
     ("measure", [], [1], [0]),
     ("barrier", [], [0, 1], []),
     ("barrier", [], [0], []),
+]
+
+
+# the symmetric completion of the alphabet (second bounded-exhaustive stream, one length shorter)
+ALPHABET13 = ALPHABET + [
+    ("h", [], [1], []),
+    ("x", [], [0], []),
+    ("barrier", [], [1], []),
 ]
 
 
@@ -83,7 +109,10 @@ def build(nq, nc, prog, qlayout=None, clayout=None):
         assert qc.num_qubits == nq and qc.num_clbits == nc
     for name, params, qs, cs in prog:
         if name == "reset":
-            qc.reset(qs[0])
+            if params:  # a labelled Reset (the label is not part of the canonical form)
+                qc.append(Reset(label=f"r{int(params[0])}"), qs)
+            else:
+                qc.reset(qs[0])
         elif name == "measure":
             qc.measure(qs[0], cs[0])
         elif name == "barrier":
@@ -116,6 +145,26 @@ def pass_managers():
                                     do_while=lambda ps: not ps["size_fixed_point"]))
         _PM["dag_rfr_fix_size"] = pm
     return _PM
+
+
+LISTFN = {"consolidate": _consolidate_resets, "zero": _remove_resets_in_zero_state, "final": _remove_final_resets}
+
+
+def run_extra(qc, ctx_canon):
+    """inplace=False and call-twice forms; returns ({name: circuit}, input_untouched: bool)."""
+    out = {}
+    untouched = True
+    before = ctx_canon(qc)
+    for b, f in LISTFN.items():
+        a = qc.copy()
+        r = f(a, inplace=False)
+        untouched = untouched and (r is not a) and ctx_canon(a) == before
+        out[b + "_copy"] = r
+        a = qc.copy()
+        f(a)
+        f(a)
+        out[b + "_twice"] = a
+    return out, untouched
 
 
 def run_passes(qc, size_fixed_point=False):
@@ -163,16 +212,23 @@ def lit_circ(c):
     return Raw("[" + "; ".join(lit_instr(d) for d in c) + "]")
 
 
-def canon_all(qc, outs):
+def canon_all(qc, outs, names=None):
+    """Canonical input and outputs; also the list of passes whose output no longer lives on the same
+    number of bits (recorded in the case and flagged by judge, instead of crashing the generator) and
+    whether every output kept the register structure of the input."""
     ctx = CircCtx()
     cin = ctx.canon_circuit(qc)
-    couts = {}
-    for k in PASSES:
+    couts, bits_changed = {}, []
+    regs_in = circuit_registers(qc)
+    regs_ok = True
+    for k in (names or PASSES):
         o = outs[k]
-        # outputs must live on the same bits as the input
-        assert o.num_qubits == qc.num_qubits and o.num_clbits == qc.num_clbits
+        if o.num_qubits != qc.num_qubits or o.num_clbits != qc.num_clbits:
+            bits_changed.append(k)
+        elif circuit_registers(o) != regs_in:
+            regs_ok = False
         couts[k] = ctx.canon_circuit(o)
-    return cin, couts
+    return cin, couts, bits_changed, regs_ok
 
 
 def tok(d):
@@ -204,8 +260,9 @@ def untok(t):
 # random programs
 # ----------------------------------------------------------------------------------------------
 
-G1 = [("h", []), ("x", []), ("s", []), ("t", []), ("ry", [0.5]), ("rx", [0.25]), ("z", []), ("sdg", [])]
-G2 = [("cx", []), ("cz", []), ("swap", []), ("crx", [0.5])]
+G1 = [("h", []), ("x", []), ("s", []), ("t", []), ("ry", [0.5]), ("rx", [0.25]), ("z", []), ("sdg", []),
+      ("rz", [0.75]), ("y", []), ("tdg", []), ("sx", []), ("p", [0.5])]
+G2 = [("cx", []), ("cz", []), ("swap", []), ("crx", [0.5]), ("rzz", [0.5])]
 
 
 def rand_instr(rng, nq, nc, wreset):
@@ -220,7 +277,7 @@ def rand_instr(rng, nq, nc, wreset):
         g = G2[int(rng.integers(0, len(G2)))]
         qs = [int(q) for q in rng.permutation(nq)[:2]]
         return (g[0], list(g[1]), qs, [])
-    if r < 0.60 and nq >= 3:
+    if r < 0.62 and nq >= 3:
         return ("ccx", [], [int(q) for q in rng.permutation(nq)[:3]], [])
     if r < 0.80 and nc >= 1:
         return ("measure", [], [int(rng.integers(0, nq))], [int(rng.integers(0, nc))])
@@ -231,32 +288,55 @@ def rand_instr(rng, nq, nc, wreset):
     return (g[0], list(g[1]), [int(rng.integers(0, nq))], [])
 
 
+MAXLEN = 16
+
+
 def rand_prog(rng, nq, nc):
-    n = int(rng.integers(0, 17))
+    """<= 16 instructions; the shaped block is built FIRST and the random filling is cut to fit."""
     wreset = float(rng.choice([0.15, 0.3, 0.5, 0.7]))
-    prog = [rand_instr(rng, nq, nc, wreset) for _ in range(n)]
-    # shaped resets: leading block, trailing block, around a two-qubit gate
-    mode = int(rng.integers(0, 6))
+
+    def R(q):
+        return ("reset", [], [q], [])
+
     def resets(k):
-        return [("reset", [], [int(rng.integers(0, nq))], []) for _ in range(k)]
+        return [R(int(rng.integers(0, nq))) for _ in range(k)]
+
+    mode = int(rng.integers(0, 7))
+    head, blk, tail = [], [], []
     if mode == 0:
-        prog = resets(int(rng.integers(1, 4))) + prog
+        head = resets(int(rng.integers(1, 4)))
     elif mode == 1:
-        prog = prog + resets(int(rng.integers(1, 4)))
-    elif mode == 2 and nq >= 2 and prog:
-        i = int(rng.integers(0, len(prog) + 1))
+        tail = resets(int(rng.integers(1, 4)))
+    elif mode == 2 and nq >= 2:
         a, b = [int(q) for q in rng.permutation(nq)[:2]]
         side = [a, b][int(rng.integers(0, 2))]
-        blk = [("reset", [], [side], [])] * int(rng.integers(1, 3)) + [("cx", [], [a, b], [])] + \
-              [("reset", [], [[a, b][int(rng.integers(0, 2))]], [])] * int(rng.integers(1, 3))
-        prog = prog[:i] + blk + prog[i:]
-    elif mode == 3 and prog:
+        blk = [R(side)] * int(rng.integers(1, 3)) + [("cx", [], [a, b], [])] + \
+              [R([a, b][int(rng.integers(0, 2))])] * int(rng.integers(1, 3))
+    elif mode == 3:
         # reset, separator (barrier or measure), reset on the same qubit
         q = int(rng.integers(0, nq))
         sep = ("barrier", [], [q], []) if (nc == 0 or rng.integers(0, 2)) else ("measure", [], [q], [int(rng.integers(0, nc))])
-        i = int(rng.integers(0, len(prog) + 1))
-        prog = prog[:i] + [("reset", [], [q], []), sep, ("reset", [], [q], [])] + prog[i:]
-    return prog[:16]
+        blk = [R(q), sep, R(q)]
+    elif mode == 4 and nq >= 3:
+        # a reset on EVERY argument position of a three-qubit gate whose other arguments are excited:
+        # x a; x b; R q; ccx(..q..); R q   (the second reset is significant when q is the target)
+        a, b, q = [int(v) for v in rng.permutation(nq)[:3]]
+        pos = int(rng.integers(0, 3))
+        args = [a, b]
+        args.insert(pos, q)
+        blk = [("x", [], [a], []), ("x", [], [b], []), R(q), ("ccx", [], args, []), R(q)]
+        if nc >= 1:
+            blk.append(("measure", [], [q], [int(rng.integers(0, nc))]))
+    elif mode == 5:
+        head = resets(int(rng.integers(1, 3)))
+        tail = resets(int(rng.integers(1, 3)))
+    room = MAXLEN - len(head) - len(blk) - len(tail)
+    n = int(rng.integers(0, room + 1))
+    fill = [rand_instr(rng, nq, nc, wreset) for _ in range(n)]
+    i = int(rng.integers(0, len(fill) + 1))
+    prog = head + fill[:i] + blk + fill[i:] + tail
+    assert len(prog) <= MAXLEN
+    return prog
 
 
 def rand_layout(rng, n):
@@ -280,39 +360,235 @@ def features(w, stream, cin, couts):
         w.count(stream + ".removed." + k, len(cin) - len(couts[k]))
 
 
+def judged(w, case):
+    """Every generated case goes through the property oracle: on the unchanged tree it must accept all of them."""
+    try:
+        v = judge(case)
+    except Exception as e:  # noqa: BLE001
+        v = dict(violates=True, detail=f"judge raised {type(e).__name__}: {e}")
+    w.contract("judge_accepts_clean_case", not v["violates"])
+    if v["violates"] and len(w.notes) < 20:
+        w.notes.append(f"oracle violation: {v['detail'][:400]} on {case.get('cin')}")
+    return v
+
+
 def one_case(w, stream, nq, nc, prog, qlayout=None, clayout=None, combined=False):
     qc = build(nq, nc, prog, qlayout, clayout)
     outs = run_passes(qc, size_fixed_point=combined)
-    cin, couts = canon_all(qc, outs)
+    names = list(PASSES)
+    if not combined:
+        extra, untouched = run_extra(qc, lambda c: CircCtx().canon_circuit(c))
+        outs.update(extra)
+        names += EXTRA
+        w.contract("inplace_false_leaves_input_untouched", untouched)
+    cin, couts, bits_changed, regs_ok = canon_all(qc, outs, names)
+    w.contract("registers_preserved", regs_ok)
     case = dict(nq=nq, nc=nc, qlayout=qlayout, clayout=clayout, size_fixed_point=combined,
-                cin=[tok(d) for d in cin], impl={k: [tok(d) for d in couts[k]] for k in PASSES})
-    v = judge(case)
-    # the density-matrix oracle (independent of the Coq model) must agree with the property on every case
-    w.contract("density_matrix_oracle_finds_no_violation", not v["violates"])
-    if v["violates"]:
-        w.notes.append(f"oracle violation: {v['detail']} on nq={nq} nc={nc} prog={prog}")
+                cin=[tok(d) for d in cin], impl={k: [tok(d) for d in couts[k]] for k in names},
+                bits_changed=bits_changed)
+    v = judged(w, case)
     features(w, stream, cin, couts)
     changed = any(len(couts[k]) != len(cin) for k in PASSES)
     if combined:
         w.add(stream, "chk_all", (nq, nc, lit_circ(cin), [lit_circ(couts[k]) for k in PASSES]), case, nontrivial=changed)
     else:
-        for k in PASSES:
+        for k in names:
             c1 = dict(case, only=k)
             w.add(stream + "." + k, CHECKER[k], (nq, nc, lit_circ(cin), lit_circ(couts[k])), c1,
                   nontrivial=len(couts[k]) != len(cin))
     return v
 
 
+# ----------------------------------------------------------------------------------------------
+# end-to-end stream: the passes as generate_cutting_experiments applies them
+# ----------------------------------------------------------------------------------------------
+
+E2E_FNS = ("_remove_resets_in_zero_state", "_remove_final_resets", "_consolidate_resets")
+E2E_KEY = {"_remove_resets_in_zero_state": "zero", "_remove_final_resets": "final", "_consolidate_resets": "consolidate"}
+
+
+def e2e_problem(rng, it):
+    """A small wire-cut problem: circuit with CutWire markers + observables (some with identity factors,
+    so that a partition gets an identity sub-observable and the placeholder measurement)."""
+    if it == 0:  # the reviewer's probe
+        qc = QuantumCircuit(2)
+        qc.h(0); qc.cx(0, 1); qc.append(CutWire(), [0]); qc.rx(0.5, 0); qc.ry(0.25, 1)
+        return qc, PauliList(["IZ"]), "probe"
+    n = int(rng.integers(2, 4))
+    qc = QuantumCircuit(n)
+    ncuts = 1 if rng.integers(0, 4) else 2
+    cutpos = sorted(int(v) for v in rng.integers(1, 5, size=ncuts))
+    k = 0
+    for step in range(6):
+        while k < len(cutpos) and cutpos[k] == step:
+            qc.append(CutWire(), [int(rng.integers(0, n))])
+            k += 1
+        r = rng.integers(0, 4)
+        if r == 0:
+            a, b = [int(v) for v in rng.permutation(n)[:2]]
+            qc.cx(a, b)
+        elif r == 1:
+            qc.h(int(rng.integers(0, n)))
+        elif r == 2:
+            qc.ry(float(rng.choice([0.25, 0.5, 1.25])), int(rng.integers(0, n)))
+        else:
+            a, b = [int(v) for v in rng.permutation(n)[:2]]
+            qc.cz(a, b)
+    labels = []
+    for _ in range(int(rng.integers(1, 3))):
+        lets = ["I"] * n
+        for q in rng.permutation(n)[: int(rng.integers(1, n + 1))]:
+            lets[int(q)] = "XYZ"[int(rng.integers(0, 3))]
+        if rng.integers(0, 3) == 0:  # single-qubit observable: the other partitions get identity
+            lets = ["I"] * n
+            lets[int(rng.integers(0, n))] = "Z"
+        labels.append("".join(lets))
+    return qc, PauliList(sorted(set(labels))), f"n{n}c{ncuts}"
+
+
+def e2e_generate(subcircuits, subobservables, record=None, disable=False):
+    """generate_cutting_experiments with the three reset functions wrapped (record every call) or
+    replaced by the identity (the unoptimised subexperiments)."""
+    orig = {n: getattr(_ce, n) for n in E2E_FNS}
+    try:
+        for n in E2E_FNS:
+            if disable:
+                setattr(_ce, n, lambda c, *a, **k: c)
+            else:
+                def wrapped(c, *a, _n=n, **k):
+                    ctx = CircCtx()
+                    before = ctx.canon_circuit(c)
+                    r = orig[_n](c, *a, **k)
+                    record.append((_n, c, before, ctx.canon_circuit(c)))
+                    return r
+                setattr(_ce, n, wrapped)
+        return generate_cutting_experiments(subcircuits, subobservables, num_samples=np.inf)
+    finally:
+        for n in E2E_FNS:
+            setattr(_ce, n, orig[n])
+
+
+def e2e_stream(w, rng, n_problems, max_sub):
+    for it in range(n_problems):
+        qc, obs, tag = e2e_problem(rng, it)
+        r = call_canon(cut_wires, qc)
+        if r[0] != "ok":
+            w.count("e2e.problem", "cut_wires-" + r[0])
+            continue
+        qc1 = r[1]
+        r = call_canon(lambda: partition_problem(qc1, observables=expand_observables(obs, qc, qc1)))
+        if r[0] != "ok":
+            w.count("e2e.problem", "setup-" + r[0])
+            continue
+        pp = r[1]
+        record = []
+        ro = call_canon(e2e_generate, pp.subcircuits, pp.subobservables, record)
+        ru = call_canon(e2e_generate, pp.subcircuits, pp.subobservables, None, True)
+        if ro[0] != "ok" or ru[0] != "ok":
+            w.count("e2e.problem", "generate-" + ro[0])
+            continue
+        w.count("e2e.problem", tag)
+        subs, subs0 = ro[1][0], ru[1][0]
+        # (a) every recorded call against the model of that pass
+        by_obj = {}
+        for n, c, before, after in record:
+            by_obj.setdefault(id(c), []).append(n)
+            k = E2E_KEY[n]
+            case = dict(nq=c.num_qubits, nc=c.num_clbits, cin=[tok(d) for d in before], impl={k: [tok(d) for d in after]},
+                        only=k, bits_changed=[], origin="generate_cutting_experiments")
+            judged(w, case)
+            w.add("e2e." + k, CHECKER[k], (c.num_qubits, c.num_clbits, lit_circ(before), lit_circ(after)), case,
+                  nontrivial=len(before) != len(after))
+        # (b) every subexperiment as a whole against the unoptimised one
+        for label in subs:
+            groups = ObservableCollection(pp.subobservables[label]).groups
+            assert len(subs[label]) == len(subs0[label])
+            for i, (opt, un) in enumerate(zip(subs[label], subs0[label])):
+                if i >= max_sub:
+                    break
+                cog = groups[i % len(groups)]
+                placeholder = not cog.pauli_indices
+                seq = by_obj.get(id(opt), [])
+                want = (["_remove_final_resets"] if placeholder else []) + list(E2E_FNS)
+                w.contract("e2e_every_subexperiment_gets_the_pipeline", seq == want)
+                ctx = CircCtx()
+                cun, copt = ctx.canon_circuit(un), ctx.canon_circuit(opt)
+                unmasked = []
+                for reg in opt.cregs:
+                    if reg.name == "qpd_measurements" or (reg.name == "observable_measurements" and not placeholder):
+                        unmasked += [opt.find_bit(b).index for b in reg]
+                w.contract("registers_preserved", circuit_registers(un) == circuit_registers(opt))
+                case = dict(kind="e2e", nq=un.num_qubits, nc=un.num_clbits, placeholder=placeholder, unmasked=sorted(unmasked),
+                            cin=[tok(d) for d in cun], impl={"e2e": [tok(d) for d in copt]}, bits_changed=[])
+                judged(w, case)
+                w.count("e2e.placeholder", placeholder)
+                w.count("e2e.removed", len(cun) - len(copt))
+                w.add("e2e.subexperiment", "chk_e2e", (un.num_qubits, placeholder, lit_circ(cun), lit_circ(copt)), case,
+                      nontrivial=len(cun) != len(copt))
+
+
+# ----------------------------------------------------------------------------------------------
+# observations outside the property's quantifier (recorded, never checked)
+# ----------------------------------------------------------------------------------------------
+
+def observations(w):
+    """Conditional resets and non-Reset instructions named 'reset' are outside 'gates, mid-circuit
+    measurements, resets and barriers'; the model does not cover them.  What the implementation does
+    on the known probes is recorded in the histograms only."""
+    def names(c):
+        return [(i.operation.name, getattr(i.operation, "condition", None) is not None) for i in c.data]
+    try:
+        # list pass: conditional reset followed by an unconditional one
+        qc = QuantumCircuit(2, 1)
+        qc.h(0); qc.measure(0, 0); qc.h(1)
+        qc.reset(1).c_if(qc.clbits[0], 1)
+        qc.reset(1); qc.measure(1, 0)
+        a = qc.copy(); _consolidate_resets(a)
+        kept = [c for n, c in names(a) if n == "reset"]
+        w.count("observation.c_if.list_consolidate_keeps_only_conditional_reset", kept == [True])
+        # DAG pass: unconditional reset followed by a conditional one
+        qc = QuantumCircuit(2, 1)
+        qc.h(0); qc.measure(0, 0); qc.h(1)
+        qc.reset(1)
+        qc.reset(1).c_if(qc.clbits[0], 1)
+        qc.h(1); qc.measure(1, 0)
+        b = pass_managers()["dag_consolidate"].run(qc)
+        kept = [c for n, c in names(b) if n == "reset"]
+        w.count("observation.c_if.dag_consolidate_keeps_only_conditional_reset", kept == [True])
+    except Exception as e:  # noqa: BLE001
+        w.count("observation.c_if.probe_failed", type(e).__name__)
+    try:
+        # an instruction that is merely NAMED "reset": list passes go by name, DAG passes by class
+        qc = QuantumCircuit(1)
+        qc.h(0); qc.append(Instruction("reset", 1, 0, []), [0])
+        a = qc.copy(); _remove_final_resets(a)
+        b = pass_managers()["dag_rfr"].run(qc)
+        w.count("observation.named_reset.list_final_removes_it", len(a.data) == 1)
+        w.count("observation.named_reset.dag_final_removes_it", len(b.data) == 1)
+    except Exception as e:  # noqa: BLE001
+        w.count("observation.named_reset.probe_failed", type(e).__name__)
+
+
 def generate(rng, tier, outdir):
     w = CaseWriter(outdir, IMPORTS)
-    maxlen = 4 if tier == "quick" else 5
-    n_random = 250 if tier == "quick" else 4000
-    n_exotic = 40 if tier == "quick" else 600
+    quick = tier == "quick"
+    maxlen = 4 if quick else 5
+    maxlen13 = 3 if quick else 4
+    n_random = 250 if quick else 4000
+    n_exotic = 40 if quick else 600
+    n_e2e = 8 if quick else 60
 
     # ---- bounded-exhaustive: every program of length <= maxlen over the 10-letter alphabet, 2 qubits / 1 clbit
     for n in range(0, maxlen + 1):
         for idxs in itertools.product(range(len(ALPHABET)), repeat=n):
             one_case(w, "exhaustive", 2, 1, [ALPHABET[i] for i in idxs], combined=True)
+    # ---- the symmetric 13-letter alphabet (adds h q1, x q0, barrier(1)), one length shorter; only programs
+    #      that use a new letter (the others are in the first stream)
+    new = set(range(len(ALPHABET), len(ALPHABET13)))
+    for n in range(1, maxlen13 + 1):
+        for idxs in itertools.product(range(len(ALPHABET13)), repeat=n):
+            if new.intersection(idxs):
+                one_case(w, "exhaustive13", 2, 1, [ALPHABET13[i] for i in idxs], combined=True)
 
     # ---- random dynamic circuits: 1..4 qubits, 0..4 clbits, <= 16 instructions
     for _ in range(n_random):
@@ -324,7 +600,7 @@ def generate(rng, tier, outdir):
         one_case(w, "random", nq, nc, prog)
 
     # ---- exotic stream (outside the everyday shape): split registers / loose bits, delay and id gates,
-    #      empty circuits, circuits without qubits
+    #      labelled resets, empty circuits, circuits without qubits
     for it in range(n_exotic):
         if it == 0:
             one_case(w, "exotic", 0, 0, [], [], [])
@@ -334,22 +610,34 @@ def generate(rng, tier, outdir):
             continue
         nq = int(rng.integers(1, 5))
         nc = int(rng.integers(0, 5))
-        prog = rand_prog(rng, nq, nc)
+        prog = rand_prog(rng, nq, nc)[:14]
         for _ in range(int(rng.integers(0, 3))):
             i = int(rng.integers(0, len(prog) + 1))
             q = int(rng.integers(0, nq))
             prog.insert(i, [("delay", [8], [q], []), ("id", [], [q], [])][int(rng.integers(0, 2))])
-        prog = prog[:16]
+        if rng.integers(0, 2):
+            prog = [(p[0], [int(rng.integers(0, 3))], p[2], p[3]) if p[0] == "reset" and rng.integers(0, 2) else p for p in prog]
         one_case(w, "exotic", nq, nc, prog, rand_layout(rng, nq), rand_layout(rng, nc))
+
+    # ---- end to end: the call sites inside generate_cutting_experiments on small wire-cut problems
+    e2e_stream(w, rng, n_e2e, 16 if quick else 64)
+
+    observations(w)
 
     return w.finish(
         rule=f"bounded-exhaustive: every program of length <= {maxlen} over {{reset q0, reset q1, h q0, x q1, cx 0 1, cx 1 0, "
         "measure q0->c0, measure q1->c0, barrier(0,1), barrier(0)}} on 2 qubits / 1 clbit (one combined case per program: "
-        "all seven checks); random dynamic circuits on 1..4 qubits, 0..4 clbits, <= 16 instructions with shaped resets (leading, "
-        "trailing, repeated, around two-qubit gates on either argument, separated by barrier/measure), one case per pass; exotic "
-        "stream: split registers/loose bits, delay/id gates, empty and qubit-less circuits. List passes: exact instruction list; "
-        "transpiler passes (through PassManager; the fixed point of RemoveFinalReset by DoWhileController with Size+FixedPoint on the exhaustive stream and with DAGFixedPoint on the other streams): per-wire sequences. non-trivial = the pass removed at least one instruction. "
-        "Every case is also judged by the independent density-matrix branch simulator (oracle contract)."
+        f"all seven checks), plus every program of length <= {maxlen13} over that alphabet extended by {{h q1, x q0, barrier(1)}} that uses "
+        "a new letter; random dynamic circuits on 1..4 qubits, 0..4 clbits, <= 16 instructions with shaped resets (leading, "
+        "trailing, both, repeated, around two-qubit gates on either argument, on every argument position of a ccx with excited "
+        "partners, separated by barrier/measure), one case per pass and call form (in place, inplace=False, applied twice); exotic "
+        "stream: split registers/loose bits, delay/id gates, labelled resets, empty and qubit-less circuits; end-to-end stream: "
+        "generate_cutting_experiments on small wire-cut problems (incl. identity sub-observables), every recorded call of the three "
+        "functions against its model and every subexperiment against the unoptimised one (passes disabled from the harness). "
+        "List passes: exact instruction list; "
+        "transpiler passes (through PassManager; the fixed point of RemoveFinalReset by DoWhileController with Size+FixedPoint on the "
+        "exhaustive streams and with DAGFixedPoint on the other streams): per-wire sequences. non-trivial = the pass removed at least "
+        "one instruction. Every case is also judged by the independent density-matrix branch simulator (contract judge_accepts_clean_case)."
     )
 
 
@@ -358,6 +646,10 @@ def generate(rng, tier, outdir):
 # ----------------------------------------------------------------------------------------------
 
 _S2 = 1 / np.sqrt(2)
+
+
+class OutsideDomain(Exception):
+    pass
 
 
 def _rot(axis, th):
@@ -418,7 +710,23 @@ def gate_matrix(name, params):
         for a in range(4):
             m[((a & 1) << 1) | (a >> 1), a] = 1
         return m
-    raise ValueError(f"oracle does not know gate {name}")
+    if name == "sx":
+        return 0.5 * np.array([[1 + 1j, 1 - 1j], [1 - 1j, 1 + 1j]])
+    if name == "sxdg":
+        return 0.5 * np.array([[1 - 1j, 1 + 1j], [1 + 1j, 1 - 1j]])
+    if name == "p":
+        return np.diag([1, np.exp(1j * float(params[0]))])
+    if name == "rzz":
+        t = float(params[0]) / 2
+        return np.diag([np.exp(-1j * t), np.exp(1j * t), np.exp(1j * t), np.exp(-1j * t)])
+    # any other standard gate: its documented matrix (not part of the independent table)
+    if name in STD:
+        g = STD[name]
+        try:
+            return np.asarray((type(g)(*params) if params else g).to_matrix(), dtype=complex)
+        except Exception as e:  # noqa: BLE001
+            raise OutsideDomain(f"gate {name} has no matrix ({type(e).__name__})")
+    raise OutsideDomain(f"instruction {name} is not a gate, measurement, reset or barrier")
 
 
 def embed(u, qs, nq):
@@ -476,7 +784,7 @@ def simulate(nq, nc, cprog):
                     new[k2] = new[k2] + x if k2 in new else x
             br = new
         else:
-            raise ValueError(f"oracle does not know instruction {op}")
+            raise OutsideDomain(f"instruction {op}")
     return br
 
 
@@ -531,21 +839,22 @@ def _sim_cached(nq, nc, c):
 
 
 def judge_pass(name, nq, nc, cin, cout):
+    pname, name = name, base_pass(name)
     # (1) only resets are removed, everything else untouched and in order
     if name in LIST_PASSES:
         if not only_resets_deleted(cin, cout):
-            return f"{name}: output is not the input with only resets deleted: in={cin} out={cout}"
+            return f"{pname}: output is not the input with only resets deleted: in={cin} out={cout}"
     else:
         for q in range(nq):
             if not only_resets_deleted(wire_seq(cin, q), wire_seq(cout, q)):
-                return f"{name}: qubit {q}'s instruction sequence is not preserved up to deleted resets"
+                return f"{pname}: qubit {q}'s instruction sequence is not preserved up to deleted resets"
         for k in range(nc):
             if clbit_seq(cin, k) != clbit_seq(cout, k):
-                return f"{name}: clbit {k}'s instruction sequence changed"
+                return f"{pname}: clbit {k}'s instruction sequence changed"
         nr_in = sorted(repr(d) for d in cin if d["op"][0] != "reset")
         nr_out = sorted(repr(d) for d in cout if d["op"][0] != "reset")
         if nr_in != nr_out or len(cout) > len(cin):
-            return f"{name}: non-reset instructions changed"
+            return f"{pname}: non-reset instructions changed"
     # (2) joint law of the clbits together with the conditional state of the qubits not excused
     dropped = set()
     if name in FINAL_TYPE:
@@ -562,20 +871,65 @@ def judge_pass(name, nq, nc, cin, cout):
         ra = ptrace(a[k], dropped, nq) if k in a else zero
         rb = ptrace(b[k], dropped, nq) if k in b else zero
         if not np.allclose(ra, rb, atol=1e-9, rtol=0):
-            return (f"{name}: clbits={k}: joint (probability x conditional state) of qubits "
+            return (f"{pname}: clbits={k}: joint (probability x conditional state) of qubits "
                     f"{[q for q in range(nq) if q not in dropped]} differs by {np.abs(ra - rb).max():.3g}; excused qubits {sorted(dropped)}")
     return None
 
 
-def judge(case):
+def same_per_wire(nq, nc, a, b):
+    return (len(a) == len(b) and all(wire_seq(a, q) == wire_seq(b, q) for q in range(nq))
+            and all(clbit_seq(a, k) == clbit_seq(b, k) for k in range(nc)))
+
+
+def clbit_law(nq, nc, c, keep):
+    """Marginal law of the classical bits in [keep] (all qubits traced out)."""
+    law = {}
+    for k, rho in _sim_cached(nq, nc, c).items():
+        kk = tuple(k[i] for i in keep)
+        law[kk] = law.get(kk, 0.0) + float(np.real(np.trace(rho)))
+    return law
+
+
+def judge_e2e(case):
     nq, nc = case["nq"], case["nc"]
     cin = [untok(t) for t in case["cin"]]
-    names = [case["only"]] if case.get("only") else PASSES
-    problems = []
-    for name in names:
-        p = judge_pass(name, nq, nc, cin, [untok(t) for t in case["impl"][name]])
-        if p:
-            problems.append(p)
+    cout = [untok(t) for t in case["impl"]["e2e"]]
+    if not only_resets_deleted(cin, cout):
+        return "e2e: the subexperiment is not the unoptimised one with only resets deleted"
+    keep = case["unmasked"]
+    a, b = clbit_law(nq, nc, cin, keep), clbit_law(nq, nc, cout, keep)
+    for k in set(a) | set(b):
+        if abs(a.get(k, 0.0) - b.get(k, 0.0)) > 1e-9:
+            return (f"e2e: law of the unmasked classical bits {keep} differs at outcome {k}: "
+                    f"{a.get(k, 0.0):.6g} (unoptimised) vs {b.get(k, 0.0):.6g} (generated subexperiment)")
+    return None
+
+
+def judge(case):
+    """Domain = the property's quantifier: gates, measurements, resets, barriers on in-range bits.
+    Anything the oracle cannot interpret is outside that domain and is not flagged."""
+    try:
+        if case.get("kind") == "e2e":
+            p = judge_e2e(case)
+            return dict(violates=bool(p), detail=p or "property holds on this subexperiment")
+        nq, nc = case["nq"], case["nc"]
+        cin = [untok(t) for t in case["cin"]]
+        names = [case["only"]] if case.get("only") else [k for k in PASSES + EXTRA if k in case["impl"]]
+        problems = []
+        for name in names:
+            if name in case.get("bits_changed", []):
+                problems.append(f"{name}: the output circuit no longer has {nq} qubits / {nc} clbits")
+                continue
+            p = judge_pass(name, nq, nc, cin, [untok(t) for t in case["impl"][name]])
+            if p:
+                problems.append(p)
+        # "the two equivalent transpiler passes": same sequence on every wire as the function-level pass
+        for dag, lst in (("dag_rfr_fix", "final"), ("dag_consolidate", "consolidate")):
+            if dag in names and lst in case["impl"] and dag not in case.get("bits_changed", []):
+                if not same_per_wire(nq, nc, [untok(t) for t in case["impl"][dag]], [untok(t) for t in case["impl"][lst]]):
+                    problems.append(f"{dag}: not equivalent to the list pass '{lst}' (some wire sees a different instruction sequence)")
+    except OutsideDomain as e:
+        return dict(violates=False, detail=f"outside the property's quantifier: {e}")
     return dict(violates=bool(problems), detail="; ".join(problems) if problems else "property holds on this input for " + ",".join(names))
 
 
@@ -586,9 +940,31 @@ def rerun(case):
         name = d["op"][0] if d["op"][0] != "gate" else d["op"][2]
         params = d["op"][3] if d["op"][0] == "gate" else []
         prog.append((name, params, d["qs"], d["cs"]))
+    if case.get("kind") == "e2e" or case.get("origin"):
+        # subexperiment-shaped input: re-run the recorded pass / the call sites of generate_cutting_experiments on it
+        qc = build(case["nq"], case["nc"], prog)
+        if case.get("kind") == "e2e":
+            a = qc.copy()
+            if case["placeholder"]:
+                last = a.data.pop()
+                _ce._remove_final_resets(a)
+                a.data.append(last)
+            for n in E2E_FNS:
+                getattr(_ce, n)(a)
+            case["impl"] = {"e2e": [tok(d) for d in CircCtx().canon_circuit(a)]}
+        else:
+            k = case["only"]
+            a = qc.copy()
+            LISTFN[k](a)
+            case["impl"] = {k: [tok(d) for d in CircCtx().canon_circuit(a)]}
+        return case
     qc = build(case["nq"], case["nc"], prog, case.get("qlayout"), case.get("clayout"))
     outs = run_passes(qc, size_fixed_point=bool(case.get("size_fixed_point")))
-    cin, couts = canon_all(qc, outs)
+    names = [k for k in PASSES + EXTRA if k in case["impl"]]
+    if any(k in EXTRA for k in names):
+        outs.update(run_extra(qc, lambda c: CircCtx().canon_circuit(c))[0])
+    cin, couts, bits_changed, _ = canon_all(qc, outs, names)
     assert [tok(d) for d in cin] == case["cin"], "rebuilt circuit differs from the stored input"
-    case["impl"] = {k: [tok(d) for d in couts[k]] for k in PASSES}
+    case["impl"] = {k: [tok(d) for d in couts[k]] for k in names}
+    case["bits_changed"] = bits_changed
     return case
